@@ -26,6 +26,23 @@ func hold(x, ci int) []Op {
 	return []Op{{Op: "start", A: x}, {Op: "step", A: x, Until: "pool.create"}, {Op: "step", A: x}, {Op: "ready", A: ci}, {Op: "step", A: x, Until: "h.invoke"}}
 }
 
+// bGiveup: caller 0 releases its connection to the waiting caller 1; the release is stopped k hooks after
+// it entered c.release (k = 1: right after the request was selected; larger k: wherever the code has its
+// next scheduling points, e.g. between unlock and send), then caller 1 gives up (cancel) and runs as far as
+// it can, then the release completes. On the unrepaired code (send after unlock) the connection was
+// stranded in the request channel.
+func bGiveup(k int) Scenario {
+	ops := append(hold(0, 0), []Op{
+		{Op: "start", A: 1}, {Op: "step", A: 1, Until: "pool.acq.wait"}, {Op: "step", A: 1},
+		{Op: "finish", A: 0, Out: "ok"}, {Op: "step", A: 0, Until: "pool.release"}}...)
+	for i := 0; i < k; i++ {
+		ops = append(ops, Op{Op: "step", A: 0})
+	}
+	ops = append(ops, []Op{{Op: "cancel", A: 1}, {Op: "step", A: 1, Until: "h.ret"},
+		{Op: "step", A: 0, Until: "h.ret"}, {Op: "step", A: 1, Until: "h.ret"}}...)
+	return Scenario{Name: fmt.Sprintf("b:giveup-between-select-and-send:k=%d", k), Max: 1, Callers: 2, ParkAll: true, Ops: ops}
+}
+
 // Corpus: the schedules that broke the code before the repairs (kept as regression cases, run first).
 func Corpus() []Scenario {
 	cat := func(a ...[]Op) []Op {
@@ -40,11 +57,7 @@ func Corpus() []Scenario {
 			{Op: "start", A: 0}, {Op: "step", A: 0, Until: "pool.create"}, {Op: "step", A: 0},
 			{Op: "cancel", A: 0}, {Op: "step", A: 0, Until: "h.ret"},
 			{Op: "start", A: 1}, {Op: "step", A: 1}, {Op: "step", A: 1}}},
-		{Name: "b:giveup-between-select-and-send", Max: 1, Callers: 2, ParkAll: true, Ops: cat(hold(0, 0), []Op{
-			{Op: "start", A: 1}, {Op: "step", A: 1, Until: "pool.acq.wait"}, {Op: "step", A: 1},
-			{Op: "finish", A: 0, Out: "ok"}, {Op: "step", A: 0, Until: "pool.transfer.selected"},
-			{Op: "cancel", A: 1}, {Op: "step", A: 1, Until: "h.ret"},
-			{Op: "step", A: 0, Until: "h.ret"}, {Op: "step", A: 1, Until: "h.ret"}})},
+		bGiveup(1), bGiveup(2), bGiveup(3),
 		{Name: "b2:stuck-giveup-between-select-and-send", Max: 2, Callers: 3, ParkAll: true, Ops: cat(hold(0, 0), hold(1, 1), []Op{
 			{Op: "start", A: 2}, {Op: "step", A: 2, Until: "pool.acq.wait"}, {Op: "step", A: 2},
 			{Op: "finish", A: 0, Out: "ok"}, {Op: "step", A: 0, Until: "pool.transfer.selected"},
@@ -225,6 +238,14 @@ func child(prop string) {
 		}
 		c.Finish()
 		return
+	}
+	if dir := os.Getenv("POOLSIM_DUMP_CORPUS"); dir != "" {
+		_ = os.MkdirAll(dir, 0o755)
+		for _, sc := range Corpus() {
+			js, _ := json.MarshalIndent(map[string]interface{}{"property": prop, "replay": sc}, "", " ")
+			name := strings.NewReplacer(":", "-", " ", "_").Replace(sc.Name)
+			_ = os.WriteFile(filepath.Join(dir, name+".json"), js, 0o644)
+		}
 	}
 	for _, sc := range Corpus() {
 		n := 1
